@@ -482,6 +482,12 @@ def r3_partial_operations(w, which='doc'):
         r.bad(cons, _stable(key),
               'undischarged partial operation in %s: `%s` can panic/abort and no kind guard, bound guard, size provenance or axiom covers it (operands: %s)'
               % (b.short, ob.get('path', ob['op']), key.split('|', 3)[-1][:200]), b.loc(ob['term']['span']))
+    # D7: str slices cut at character boundaries
+    for ok, cons, key, why, loc in char_boundary_obligations(w, bodies):
+        if ok:
+            r.ok(cons, 'D7: ' + why)
+        else:
+            r.bad(cons, key, why, loc)
     return r
 
 
@@ -1004,3 +1010,216 @@ for _f in RULES:
     _f.needs = ('core',)
 MATRIX_RULES = RULES
 EXTRA_CONFIGS = ['core-serde', 'core-wasm']
+
+
+# ---------------------------------------------------------------------------------------------
+# D7: a str is sliced at character boundaries only.  A byte offset computed by *counting characters* is a boundary only if
+# every counted character is one byte long.
+# ---------------------------------------------------------------------------------------------
+BYTE_OFFSET_SOURCES = re.compile(r'(core::str::<impl str>::(len|find|rfind|floor_char_boundary|ceil_char_boundary)|::len_bytes|::len_utf8|::offset|str::CharIndices.*::next)$')
+PASS_THROUGH = re.compile(r'(Option::<T>::(unwrap|expect|unwrap_or|unwrap_or_default|unwrap_or_else)|Ord::(min|max)|Ord>::(min|max)|cmp::(min|max)|Into>::into|From>::from|Clone>::clone|Clone::clone)$')
+ITER_REDUCERS = re.compile(r'Iterator>?::(min|max|next|last|nth|sum)$')
+ITER_ADAPTORS = re.compile(r'Iterator>?::(skip|take|filter|rev|enumerate|peekable|by_ref|chain|skip_while|take_while|into_iter)$|IntoIterator>?::into_iter$')
+
+
+def _ascii_char_test(w, closure_id, want_op):
+    """closure(char) -> bool is exactly `c <op> <ASCII constant>`"""
+    cb = w.bodies.get(closure_id)
+    if cb is None:
+        return False
+    stmts = [s for blk in cb.blocks if not blk['cleanup'] for s in blk['stmts'] if s['s'] == 'assign']
+    calls = [t for _, t in cb.calls()]
+    if calls:
+        return False
+    for s in stmts:
+        rv = s['rv']
+        if rv['r'] == 'binop' and s['p']['l'] == 0:
+            k = rv['b'] if rv['b']['o'] == 'const' else (rv['a'] if rv['a']['o'] == 'const' else None)
+            return rv['op'] == want_op and k is not None and (k.get('ty') or {}).get('k') == 'char' and isinstance(k.get('int'), int) and k['int'] < 128
+    return False
+
+
+def _closure_of(v, operand):
+    for o in v.pv.peel(v.pv.origins_operand(operand)):
+        if o[0] == 'agg':
+            rv = v.pv.agg_rvalue(o)
+            if rv.get('ak') == 'closure':
+                return rv['def']['id']
+    return None
+
+
+def _byte_offset(w, v, operand, depth=0, seen=None):
+    """(ok, why): is the operand a byte offset that lies on a character boundary of the string it came from?"""
+    seen = seen if seen is not None else set()
+    if depth > 8:
+        return False, 'provenance too deep'
+    b = v.b
+    for o in v.pv.peel(v.pv.origins_operand(operand)):
+        o = strip_casts(o)
+        if o[0] == 'const':
+            continue
+        if o[0] == 'param':
+            continue       # the caller's offset: judged at the call sites that pass a computed value (range entry: stated precondition)
+        if o[0] == 'binop':
+            rv = b.blocks[o[1][0]]['stmts'][o[1][1]]['rv']
+            for side in (rv['a'], rv['b']):
+                ok, why = _byte_offset(w, v, side, depth + 1, seen)
+                if not ok:
+                    return ok, why
+            continue
+        if o[0] == 'call':
+            ct = v.pv.call_term(o)
+            p = resolved_path(ct) or callee_path(ct) or ''
+            dp = callee_path(ct) or ''
+            if BYTE_OFFSET_SOURCES.search(p) or BYTE_OFFSET_SOURCES.search(dp) or re.search(r'::(len|count_linebreaks)$', dp):
+                continue
+            if PASS_THROUGH.search(dp) or PASS_THROUGH.search(p):
+                for a in ct['args']:
+                    ok, why = _byte_offset(w, v, a, depth + 1, seen)
+                    if not ok:
+                        return ok, why
+                continue
+            if re.search(r'Iterator>?::position$', dp):
+                recv = v.pv.peel(v.pv.origins_operand(ct['args'][0]))
+                over_chars = all(x[0] == 'call' and (callee_path(v.pv.call_term(x)) or '').endswith('::chars') for x in recv) and recv
+                cid = _closure_of(v, ct['args'][1])
+                if over_chars:
+                    if cid and _ascii_char_test(w, cid, 'Ne'):
+                        continue       # index of the first char that differs from an ASCII constant: every char before it is that one-byte char
+                    return False, 'a character index (chars().position(..)) is used as a byte offset and the skipped characters are not known to be one byte long'
+                if all(x[0] == 'call' and re.search(r'::(bytes|as_bytes|char_indices)$', callee_path(v.pv.call_term(x)) or '') for x in recv) and recv:
+                    continue
+                return False, 'position() over %s' % sorted(v.describe(x) for x in recv)
+            if re.search(r'Iterator>?::count$', dp):
+                ok = False
+                for x in v.pv.peel(v.pv.origins_operand(ct['args'][0])):
+                    if x[0] == 'call' and re.search(r'Iterator>?::take_while$', callee_path(v.pv.call_term(x)) or ''):
+                        tw = v.pv.call_term(x)
+                        src = v.pv.peel(v.pv.origins_operand(tw['args'][0]))
+                        cid = _closure_of(v, tw['args'][1])
+                        if src and all(y[0] == 'call' and (callee_path(v.pv.call_term(y)) or '').endswith('::chars') for y in src) and cid and _ascii_char_test(w, cid, 'Eq'):
+                            ok = True
+                if ok:
+                    continue
+                return False, 'a character count (chars()..count()) is used as a byte offset'
+            if ITER_REDUCERS.search(dp):
+                # element of an iterator: look at the closure of the map() that produced it
+                ok_any = False
+                work = [ct['args'][0]]
+                hops = 0
+                while work and hops < 8:
+                    hops += 1
+                    cur = work.pop()
+                    for x in v.pv.peel(v.pv.origins_operand(cur)):
+                        if x[0] != 'call':
+                            continue
+                        xt = v.pv.call_term(x)
+                        xp = callee_path(xt) or ''
+                        if re.search(r'Iterator>?::map$', xp):
+                            cid = _closure_of(v, xt['args'][1])
+                            cb = w.bodies.get(cid) if cid else None
+                            if cb is None:
+                                return False, 'iterator element produced by an unknown function'
+                            key = ('ret', cb.id)
+                            if key in seen:
+                                ok_any = True
+                                continue
+                            seen.add(key)
+                            ok, why = _returns_byte_offset(w, cb, depth + 1, seen)
+                            if not ok:
+                                return ok, why
+                            ok_any = True
+                        elif ITER_ADAPTORS.search(xp):
+                            work.append(xt['args'][0])
+                if ok_any:
+                    continue
+                return False, 'offset is an element of an iterator whose producer was not found'
+            rid = resolved_id(ct)
+            if rid in w.bodies and w.bodies[rid].crate is w.core:
+                key = ('ret', rid)
+                if key in seen:
+                    continue
+                seen.add(key)
+                ok, why = _returns_byte_offset(w, w.bodies[rid], depth + 1, seen)
+                if not ok:
+                    return ok, why
+                continue
+            return False, 'offset comes from `%s`' % dp
+        return False, 'offset has provenance %s' % v.describe(o)
+    return True, 'byte offset on a character boundary'
+
+
+def _returns_byte_offset(w, fb, depth, seen):
+    fv = BodyView(w, fb)
+    # every whole assignment to the return place
+    for bi, blk in enumerate(fb.blocks):
+        if blk['cleanup']:
+            continue
+        for s in blk['stmts']:
+            if s['s'] == 'assign' and s['p']['l'] == 0 and not s['p']['proj']:
+                if s['rv']['r'] == 'use':
+                    ok, why = _byte_offset(w, fv, s['rv']['op'], depth, seen)
+                elif s['rv']['r'] == 'agg' and s['rv'].get('vname') in ('Some', 'None', 'Ok'):
+                    ok, why = True, ''
+                    for op in s['rv']['ops']:
+                        ok, why = _byte_offset(w, fv, op, depth, seen)
+                        if not ok:
+                            break
+                else:
+                    ok, why = False, 'returned value built by %s' % s['rv']['r']
+                if not ok:
+                    return False, '%s (in %s)' % (why, fb.short)
+        t = blk['term']
+        if t['t'] == 'call' and t['dest']['l'] == 0 and not t['dest']['proj']:
+            fake = {'o': 'copy', 'p': {'l': 0, 'proj': []}}
+            # the return place is written by a call: judge that call
+            o = ('call', (bi, callee_path(t) or ''), ())
+            ok, why = _byte_offset_of_call(w, fv, bi, t, depth, seen)
+            if not ok:
+                return False, '%s (in %s)' % (why, fb.short)
+    return True, ''
+
+
+def _byte_offset_of_call(w, fv, bi, t, depth, seen):
+    """judge a call terminator whose result is the value of interest, by routing it through _byte_offset via a synthetic operand"""
+    # find a local that holds the call's result: the destination itself
+    dest = t['dest']
+    op = {'o': 'copy', 'p': {'l': dest['l'], 'proj': []}}
+    return _byte_offset(w, fv, op, depth, seen)
+
+
+def char_boundary_obligations(w, bodies):
+    """[(ok, construct, key, why, loc)] for every index/slice of a str by a computed range"""
+    out = []
+    for ob in obligations(w, bodies):
+        if ob['kind'] != 'call' or ob['op'] != 'index':
+            continue
+        b, t = ob['body'], ob['term']
+        if not t['args']:
+            continue
+        recv_ty = b.locals[t['args'][0]['p']['l']]['ty']['s'] if t['args'][0]['o'] in ('copy', 'move') else ''
+        cs = callee_str(t) or ''
+        if not (re.search(r'^&?(mut )?str$', recv_ty.replace("&'_ ", '&')) or re.search(r'Index<.*>>::index$', cs) and re.search(r'<str as ', cs)):
+            continue
+        v = BodyView(w, b)
+        cons = {'fn': b.short, 'op': 'str slice', 'line_hint': t['span']['line']}
+        bad = None
+        for o in v.pv.peel(v.pv.origins_operand(t['args'][1])):
+            if o[0] == 'agg':
+                rv = v.pv.agg_rvalue(o)
+                for bound in rv['ops']:
+                    ok, why = _byte_offset(w, v, bound)
+                    if not ok:
+                        bad = why
+            elif o[0] in ('param',):
+                continue
+            else:
+                ok, why = _byte_offset(w, v, t['args'][1])
+                if not ok:
+                    bad = why
+        key = '%s|char-boundary|%s' % (_stable(b.short), _stable(v.describe_operand(t['args'][1], 2)))
+        if bad:
+            out.append((False, cons, key, 'the str slice in %s can cut inside a multi-byte character: %s (slicing off a character boundary panics)' % (b.short, bad), b.loc(t['span'])))
+        else:
+            out.append((True, cons, key, 'every bound is a byte offset on a character boundary (length / find / ASCII-run count / caller precondition)', b.loc(t['span'])))
+    return out
